@@ -668,3 +668,196 @@ fn sweep(r: &mut SeqRun, seed: u64) -> bool {
     let _ = fnv(b"");
     sealed >= 2 && crossing && hits > 0 && misses > 0
 }
+
+// ---------------------------------------------------------------------------------------
+// C19: fill level steered between the estimated and the stored size of the next transaction
+// ---------------------------------------------------------------------------------------
+
+#[derive(Clone, Debug, Serialize, Deserialize)]
+pub struct C19Plan {
+    pub cfg: Cfg,
+    pub target: AppendSpec,
+    /// 0: free < min(estimated, stored); 1: between; 2: free >= max
+    pub gap_mode: u8,
+    pub seed: u64,
+}
+
+pub fn plan_c19(_tier: Tier, seed: u64) -> Value {
+    let mut rng = Rng::new(seed);
+    let mut cfg = gen_cfg(&mut rng, false);
+    cfg.buckets = 1;
+    cfg.writer_threads = 1;
+    cfg.partitions = 1 + rng.below(2) as u16;
+    cfg.pks = 1;
+    cfg.streams = 4;
+    cfg.segment_size = *rng.pick(&[131_072usize, 131_072, 163_840, 262_144]);
+    let nev = 1 + rng.usize_below(3);
+    // payload entropy decides the relation between estimated and stored size
+    let kind = *rng.pick(&[0u8, 1, 2, 2, 2]);
+    if kind == 2 && rng.chance(2, 3) {
+        cfg.compression = true; // incompressible payload + compression: stored > estimated
+    }
+    let mut events = Vec::new();
+    for i in 0..nev {
+        let payload_len = match rng.below(6) {
+            0 => rng.usize_below(100),
+            1 => 120 + rng.usize_below(20),
+            2 => 1000 + rng.usize_below(3000),
+            3 => 10_000 + rng.usize_below(20_000),
+            4 => cfg.segment_size / (nev + 1),
+            _ => (cfg.segment_size - 400) / nev - 200 - rng.usize_below(300),
+        };
+        events.push(EvSpec { stream: i, exp: ExpSpec::Any, name_len: 1 + rng.usize_below(30), meta_len: rng.usize_below(64), payload_len, kind, bad_ts: false });
+    }
+    let target = AppendSpec { pk: 0, events, seq: ExpSpec::Any, seed: rng.next_u64() >> 12, io_fail_at: None, io_fail_mid: false };
+    let gap_mode = *rng.pick(&[0u8, 1, 1, 1, 2]);
+    serde_json::to_value(C19Plan { cfg, target, gap_mode, seed: rng.next_u64() >> 12 }).unwrap()
+}
+
+pub fn run_c19(plan: &Value) -> RunOutcome {
+    let plan: C19Plan = serde_json::from_value(plan.clone()).expect("plan");
+    let mut h = Harness::new("C19", plan.cfg.clone());
+    if let Err(e) = h.open() {
+        h.violation("open-fails", "DatabaseBuilder::open", "fresh-dir", e);
+        return h.finish(None, json!({"cfg": plan.cfg}), None);
+    }
+    let seg = plan.cfg.segment_size as u64;
+    let mut rng = Rng::new(plan.seed);
+    // 1. premise: a twin of the target (same sizes and contents, other streams/ids) is stored in an
+    //    empty segment; its stored size is measured from the append hook records
+    let mut twin = plan.target.clone();
+    for e in &mut twin.events {
+        e.stream += 100;
+    }
+    twin.seed ^= 0x5555;
+    let twin_txn = h.concretise(&twin);
+    let twin_estimated = crate::model::estimated_size(&twin_txn) as u64;
+    let estimated = crate::model::estimated_size(&h.concretise(&plan.target)) as u64;
+    let _ = h.gate.take_appended();
+    let twin_res = h.append_blocking(&twin_txn);
+    let appended = h.gate.take_appended();
+    // the twin differs from the target only in the length of its stream names
+    let stored: u64 = (appended.iter().map(|(_, l)| *l).sum::<u64>() + estimated).saturating_sub(twin_estimated);
+    let fits_empty = matches!(twin_res, AppendOutcome::Ok(_)) && stored + 48 + 64 <= seg;
+    if let AppendOutcome::Ok(_) = &twin_res {
+        let _ = h.model.apply(&twin_txn);
+    }
+    if !fits_empty {
+        // outside the statement (does not fit an empty segment, or the estimate rejects it)
+        h.probe("target_does_not_fit_empty_segment");
+        let sample = json!({"cfg": plan.cfg, "estimated": estimated, "stored": stored, "fits_empty": false});
+        return h.finish(None, sample, None);
+    }
+    // 2. steer the fill level
+    let (lo, hi) = (estimated.min(stored), estimated.max(stored));
+    let want_free = |free: u64| -> bool {
+        match plan.gap_mode {
+            0 => free < lo,
+            1 => free >= lo && free < hi,
+            _ => free >= hi,
+        }
+    };
+    let mut write_offset = appended.last().map(|(o, l)| o + l).unwrap_or(48);
+    let mut filler_no = 0usize;
+    let mut reached = false;
+    let mut last_overhead: u64 = 200;
+    for _ in 0..400 {
+        let free = seg - write_offset;
+        if want_free(free) {
+            reached = true;
+            break;
+        }
+        let target_free = match plan.gap_mode {
+            0 => lo.saturating_sub(1 + rng.below(lo.min(200).max(1))),
+            1 => lo + rng.below((hi - lo).max(1)),
+            _ => break, // free < hi already and we cannot un-fill: give up on this mode
+        };
+        if free <= target_free {
+            break;
+        }
+        let need = free - target_free;
+        // far away: big steps; then stop ~500 B short; then one byte-precise filler whose
+        // overhead (stored size minus payload length) was learned from the previous filler
+        let payload_len = if need > 40_000 {
+            30_000
+        } else if need > 1200 {
+            (need - 500 - last_overhead) as usize
+        } else if need >= last_overhead {
+            (need - last_overhead) as usize
+        } else {
+            break;
+        };
+        filler_no += 1;
+        let spec = AppendSpec {
+            pk: 0,
+            events: vec![EvSpec { stream: 50 + filler_no % 3, exp: ExpSpec::Any, name_len: 1, meta_len: 0, payload_len, kind: 2, bad_ts: false }],
+            seq: ExpSpec::Any,
+            seed: rng.next_u64() >> 12,
+            io_fail_at: None,
+            io_fail_mid: false,
+        };
+        let txn = h.concretise(&spec);
+        let before = h.gate.lock().rollovers;
+        let _ = h.gate.take_appended();
+        match h.append_blocking(&txn) {
+            AppendOutcome::Ok(_) => {
+                let _ = h.model.apply(&txn);
+            }
+            _ => break,
+        }
+        if h.gate.lock().rollovers > before {
+            // overshot into a new segment: start steering again from there
+            h.probe("filler_rolled_over");
+        }
+        if let Some((o, l)) = h.gate.take_appended().last() {
+            write_offset = o + l;
+            last_overhead = l.saturating_sub(payload_len as u64).max(100);
+        }
+    }
+    let free = seg - write_offset;
+    if want_free(free) {
+        reached = true;
+    }
+    let zone = if free < lo { "free<min" } else if free < hi { "min<=free<max" } else { "free>=max" };
+    h.probe(&format!("fill_level:{zone}:{}", if stored > estimated { "stored>estimated" } else { "stored<=estimated" }));
+    h.sched.push_str(zone);
+    h.sched.push_u64(filler_no as u64);
+    // 3. the target itself, with up to 5 identical attempts
+    let txn = h.concretise(&plan.target);
+    let mut accepted = None;
+    let mut last_err = String::new();
+    for attempt in 0..5 {
+        h.evals += 1;
+        match h.append_blocking(&txn) {
+            AppendOutcome::Ok(res) => {
+                accepted = Some((attempt, res));
+                break;
+            }
+            AppendOutcome::Err(e) => last_err = format!("{e}"),
+            AppendOutcome::Stuck => {
+                last_err = "append never completed".into();
+                break;
+            }
+        }
+    }
+    match accepted {
+        Some((attempt, res)) => {
+            if attempt > 0 {
+                h.probe("accepted_on_retry");
+            }
+            let acc = h.model.apply(&txn).expect("model accepts");
+            if let Some(d) = accept_matches(&acc, &res) {
+                h.violation("wrong-positions", "append_events", "result", d);
+            }
+            let m = h.model.clone();
+            h.check_txn_readable(&m, acc.txn_no, "after-steered-append");
+        }
+        None => {
+            let shape = if stored > estimated { "stored>estimated" } else { "stored<=estimated" };
+            h.violation("rejected-for-space", "append_events", &format!("{shape}/{zone}"), format!("transaction of estimated {estimated} B / stored {stored} B fits an empty {seg} B segment but 5 identical attempts failed with {free} B free: {last_err}"));
+        }
+    }
+    let nontrivial = (zone == "min<=free<max").then(|| fnv(format!("{estimated}/{stored}/{free}/{}", plan.cfg.compression).as_bytes()));
+    let sample = json!({"cfg": plan.cfg, "estimated": estimated, "stored": stored, "free_at_attempt": free, "zone": zone, "steering_reached_target_zone": reached, "fillers": filler_no, "events": plan.target.events.len()});
+    h.finish(nontrivial, sample, None)
+}
